@@ -178,11 +178,15 @@ def run_query(case, drv):
     evidence = {pn[v]: gen.lab(labels[v][i]) for v, i in case["ev"]}
     tags = dict(order=str(case["order"]), joint=case["joint"], shape=case["shape"], n=len(names), nev=len(case["ev"]),
                 virt=len(case["virt"]), latents=len(case.get("latents", [])), rare=bool(case.get("rare")))
+    ev_before = dict(evidence)
     try:
-        res = ve.query([pn[v] for v in case["q"]], evidence=evidence or None, elimination_order=order,
+        # (an empty dict is a legal way of saying "no evidence" and is handed over as such half of the time)
+        res = ve.query([pn[v] for v in case["q"]], evidence=evidence if (evidence or len(case["q"]) % 2) else None, elimination_order=order,
                        joint=case["joint"], show_progress=False, **kw)
     except Exception as e:
         return fail(f"query(order={case['order']}) raised {type(e).__name__}: {e}", **tags)
+    if evidence != ev_before:
+        return fail(f"query modified the caller's evidence dict: {ev_before} -> {evidence}", **tags)
     if case["joint"]:
         err = compare_factor(res, m["post"], names, card, labels)
         if err:
